@@ -4,4 +4,4 @@
 From Coq Require Import ExtrOcamlBasic.
 From GO Require Import Base.Str Model.Tokenizer Model.Option Model.Tree Model.Parse Run.Check.
 Extraction Language OCaml.
-Extraction "model.ml" check_case check_tcase model_view mask_all mkMask is_option N.of_nat N.mul N.add Z.mul Z.add Z.opp Z.of_N N.to_nat.
+Extraction "model.ml" check_case check_tcase check_dcase run_dcase dmask_all model_view mask_all mkMask is_option N.of_nat N.mul N.add Z.mul Z.add Z.opp Z.of_N N.to_nat.
